@@ -683,6 +683,22 @@ def _table_vs_object(table, parser, ap):
     return None
 
 
+def _table_from_object(parser, ap):
+    """the declarations as far as the parser object shows them (used only when the reader refuses the source text)"""
+    cls = {argparse._StoreAction: "ActStore", argparse._StoreTrueAction: "ActStoreTrue", argparse._StoreFalseAction: "ActStoreFalse",
+           argparse._AppendAction: "ActAppend", argparse._CountAction: "ActCount", ap.KVAppendAction: "ActKVAppend"}
+    typ = {int: "int", float: "float", str: "str", ap.str_to_bool: "str_to_bool"}
+    out = []
+    for a in parser._actions:
+        if isinstance(a, argparse._HelpAction) or not a.option_strings:
+            continue
+        act = cls.get(type(a), "ActStore")
+        out.append(dict(flags=list(a.option_strings), dest_kw=None, dest=a.dest, type=typ.get(a.type), has_default=True, default=a.default,
+                        required=bool(a.required), action=act, nargs=None if act in ("ActStoreTrue", "ActStoreFalse", "ActCount") else a.nargs,
+                        choices=None))
+    return out
+
+
 # what the argument records assume, taken from the CLI_* / ARGS_* configurations of harness/src_functions.py (the types the
 # translation gives the namespace attributes); `extra_parser_tables` checks that Cli.*_fields of Model/Cli.v says the same
 _CFG_KIND = {"path": ([2], False), "cname": ([2], False), "str": ([2], False), "Z": ([0], False), "bool": ([3], False), "(Z * positive)": ([1], False),
@@ -816,14 +832,17 @@ def _run_parser(d, feats):
     else:
         cli = d["cli"]
         feats = feats + ["parser:" + cli, "parser:%s:%s" % (cli, d["mode"])]
+        parser = importlib.import_module("batchie.cli." + cli).get_parser()
+        fields = expected_fields(cli)
         try:
             table = argparse_reader.read_parser(common.REPO, cli)
         except argparse_reader.Refused:
-            # outside the reader's fragment: the static side reports it (Generated/SrcParser_<cli>.v does not compile)
-            return dict(wire=None, impl=None, pred=None, features=feats + ["parser:refused", "trivial"])
-        parser = importlib.import_module("batchie.cli." + cli).get_parser()
-        fields = expected_fields(cli)
-    pred = _table_vs_object(table, parser, ap)
+            # outside the reader's fragment: the static side reports it (the lemmas about src_parser_<cli> stop compiling); the
+            # command lines are then built from the parser OBJECT, and only the predicates on the real namespace are evaluated
+            table = _table_from_object(parser, ap)
+            feats = feats + ["parser:refused"]
+            d = dict(d, wire=False)
+    pred = None if "parser:refused" in feats else _table_vs_object(table, parser, ap)
     dests = [o["dest"] for o in table]
     # command lines: the required options always; the others per mode
     mode = d.get("mode", "some")
